@@ -130,6 +130,7 @@ def run(ctx):
   method_selector_rule(ctx, 'C07.sections')
   from .c19 import import_aliases
   import_aliases(ctx, 'C07.sections')
+  ctx.borrow('C06', 'C06.always-parses', 'C07.sections', instances={'imports-after-require'})     # the operative text imports what its selectors use
   # ---- C07.defaults
   df = ctx.func('config._get_default_configurable_parameter_values')
   g2, facts2 = std_facts(prog, df)
